@@ -150,6 +150,10 @@ static bool wanted(const std::string &name)
 	return true;
 }
 
+// structure-aware extras: every line of the transcript that carries a stack secret ("sts^...") is replaced by each of these
+// well-formed secrets of another size / other card dimensions (what a malicious prover would send)
+static std::vector<std::pair<std::string, std::string> > secret_extras;
+
 static void add_protocol(const std::string &name, const std::string &seedname, const Role &prover, const Role &verifier,
 	const std::string &prefix = "", const Catalogue *cp = NULL)
 {
@@ -175,6 +179,29 @@ static void add_protocol(const std::string &name, const std::string &seedname, c
 	Target t;
 	t.name = name, t.seedname = seedname, t.seed = seed, t.cat = cp ? *cp : cat();
 	t.heavy = heavy;
+	if (!secret_extras.empty() && seed.find("sts^") != std::string::npos)
+	{
+		std::vector<std::pair<std::string, std::string> > ex = secret_extras;
+		Catalogue C = t.cat;
+		std::string sd = seed;
+		t.custom = [sd, ex, C](const std::function<void(const Mutation &)> &f) {
+			// extras first (they are few and must not be thinned away by --stride: ids start with "x")
+			std::vector<Field> L = split_fields(sd, "\n");
+			Mutation m;
+			m.have_ready = true;
+			for (size_t i = 0; i < L.size(); i++)
+			{
+				if (sd.compare(L[i].beg, 4, "sts^") != 0) continue;
+				for (size_t k = 0; k < ex.size(); k++)
+				{
+					m.id = "x" + str(i) + ":" + ex[k].first, m.cls = "secret-" + ex[k].first;
+					m.ready = sd.substr(0, L[i].beg) + ex[k].second + sd.substr(L[i].beg + L[i].len);
+					f(m);
+				}
+			}
+			C.text(sd, f);
+		};
+	}
 	t.run = [verifier](const std::string &in) {
 		std::istringstream is(in);
 		std::ostringstream os;
@@ -525,6 +552,27 @@ static void fam_tmcg()
 					if (!t.TMCG_VerifyCardSecret(cc, cs, r->keys[0], 0, in, out)) return false;
 					return t.TMCG_TypeOfCard(cs) == 5;
 				});
+			secret_extras.clear();
+			with_coins(49, [&]() {
+				std::unique_ptr<TMCG_PublicKeyRing> r(ring());
+				SchindelhauerTMCG t(kappa, K, Wb);
+				size_t alt[] = { 1, 2, 4, 6 };
+				for (size_t a = 0; a < 4; a++)
+				{
+					TMCG_StackSecret<TMCG_CardSecret> x;
+					t.TMCG_CreateStackSecret(x, false, *r, 0, alt[a]);
+					secret_extras.push_back(std::make_pair("size" + str(alt[a]), exp_str(x)));
+				}
+				// right size (3), wrong card dimensions
+				TMCG_StackSecret<TMCG_CardSecret> y, z;
+				for (size_t i = 0; i < 3; i++)
+				{
+					TMCG_CardSecret c1(K + 1, Wb), c2(K, Wb + 1), c3(1, 1);
+					y.push(i, i == 1 ? c1 : c3), z.push(i, c2);
+				}
+				secret_extras.push_back(std::make_pair("dim-mixed", exp_str(y)));
+				secret_extras.push_back(std::make_pair("dim-w+1", exp_str(z)));
+			});
 			for (size_t zi = 0; zi < sizes.size(); zi++)
 			for (int cyclic = 0; cyclic < 2; cyclic++)
 			{
@@ -632,6 +680,18 @@ static void fam_tmcg()
 						return t.TMCG_TypeOfCard(cc, v.get()) == 5;
 					});
 			}
+			secret_extras.clear();
+			with_coins(50, [&]() {
+				std::unique_ptr<BarnettSmartVTMF_dlog> v(mk_vtmf(0));
+				SchindelhauerTMCG t(kappa, K, Wb);
+				size_t alt[] = { 1, 2, 4, 6 };
+				for (size_t a = 0; a < 4; a++)
+				{
+					TMCG_StackSecret<VTMF_CardSecret> x;
+					t.TMCG_CreateStackSecret(x, false, alt[a], v.get());
+					secret_extras.push_back(std::make_pair("size" + str(alt[a]), exp_str(x)));
+				}
+			});
 			for (size_t zi = 0; zi < sizes.size(); zi++)
 			for (int cyclic = 0; cyclic < 2; cyclic++)
 			{
@@ -771,6 +831,7 @@ static bool read_pairs(std::istream &in, size_t n, PairVec &e, PairVec &E)
 
 static void fam_shuffle()
 {
+	secret_extras.clear();
 	const size_t n = W.n;
 	std::string nn = "n" + str(n);
 	// ---- SKC: commitment to a permutation of known messages
